@@ -146,6 +146,15 @@ def parse_webvtt(text):
         body = []
         while i < n and lines[i] != "":
             if "-->" in lines[i]:
+                # WebVTT cue text loop: a line containing "-->" ends the cue; if it is a timing
+                # line, the next cue starts right here (no blank line needed)
+                m2 = re.match(r"^(\S+)[ \t]+-->[ \t]+(\S+)(?:[ \t]+(.*))?$", lines[i])
+                try:
+                    ok2 = bool(m2) and _vtt_time(m2.group(1)) is not None and _vtt_time(m2.group(2)) is not None
+                except RefParseError:
+                    ok2 = False
+                if ok2:
+                    break
                 raise RefParseError(f"'-->' inside cue payload: {lines[i]!r}")
             body.append(lines[i])
             i += 1
@@ -437,6 +446,7 @@ def parse_sami(text):
     if "sami" not in p.seen:
         raise RefParseError("no <sami> element")
     classes = {}
+    class_rules = {}
     for m in re.finditer(r"([.#]?[\w-]+)\s*\{([^}]*)\}", p.style_text):
         props = {}
         for decl in m.group(2).split(";"):
@@ -444,4 +454,6 @@ def parse_sami(text):
                 k, v = decl.split(":", 1)
                 props[k.strip().lower()] = v.strip()
         classes[m.group(1).lstrip(".#").lower()] = props
-    return {"syncs": p.syncs, "classes": classes, "errors": p.errors}
+        if m.group(1).startswith("."):
+            class_rules[m.group(1)[1:].lower()] = props      # rules with a class selector only
+    return {"syncs": p.syncs, "classes": classes, "class_rules": class_rules, "errors": p.errors}
